@@ -1,6 +1,7 @@
 (* C07 — reconnection replays exactly the missed updates, then continues live seamlessly.
-   Statements only; proofs in Proofs/HubProofs7.v. The system is the hub transition system of Model/Hub.v with the
-   persistent (Bolt) transport and full retention: any number of publishers and subscriber handlers, Close, and
+   Statements only; proofs in Proofs/HubProofs7.v. The system is the hub transition system of Model/Hub.v with full
+   retention, for either transport (persistent = true: Bolt; false: the local transport, which keeps no history, so
+   that whatever is requested nothing is replayed): any number of publishers and subscriber handlers, Close, and
    crashes (ACrash: the process dies and the hub reopens the same history file), under every schedule. A schedule
    places every publish anywhere relative to the registration (index + cut-off), the history scan (one entry per
    step) and the go-live flush (one queued update per step) of every subscriber. *)
@@ -14,15 +15,20 @@ From Mercure Require Import Base Hub HubProofs7.
    exactly target: nothing lost, duplicated or reordered at the junction. A subscriber the hub cannot serve
    (buffer overflow, Close) is cut off: it keeps a gap-free prefix. *)
 Theorem C07_replay_then_live :
-  forall (mt : nat -> N -> bool) (cap : nat) (tracking : bool) reqs pubs sched i s,
-  let st := w_st (wrun mt cap tracking (winit true 0 reqs pubs) sched) in
+  forall (mt : nat -> N -> bool) (cap : nat) (tracking persistent : bool) reqs pubs sched i s,
+  let st := w_st (wrun mt cap tracking (winit persistent 0 reqs pubs) sched) in
   nth_error (h_subs st) i = Some s ->
-  let target := ideal mt i (h_committed st) (hs_cut s) (hs_req s) in
+  let target := ideal mt i (h_committed st) (hs_cut s) (eff_req persistent (hs_req s)) in
   (N.to_nat (hs_cut s) <= length (h_committed st))%nat /\
   prefix (hs_sent s) target /\ prefix (hs_recvd s) target /\ hs_sent s = hs_recvd s ++ hs_out s /\
   (forall left, hs_phase s = PLive left -> hs_disc s = false -> hs_sent s = target).
 Proof. exact replay_then_live. Qed.
 Print Assumptions C07_replay_then_live.
+
+(* eff_req true rq = rq (Bolt: the request is honoured); eff_req false rq = NoReq (local transport: no history) *)
+Theorem C07_effective_request : forall rq, eff_req true rq = rq /\ eff_req false rq = NoReq.
+Proof. intros rq. split; reflexivity. Qed.
+Print Assumptions C07_effective_request.
 
 (* target is what the subscriber would have received had it stayed connected: the matching part of the single
    committed order from one point k on - the beginning for "earliest", just after the requested id when it is stored
